@@ -704,3 +704,28 @@ def rule_level_forwarding(repo, res):
                                     "then formats at its default level 0, so statements of a nested block lose their indentation",
                                     where=f"pvl/encoder.py:{call.lineno}"))
     res.floor("calls that must forward the nesting level", n, 6)
+
+
+def rule_align(repo, res):
+    """ALIGN: every encode_assignment writes `<key>.ljust(key_len) + " = "` where key_len is the width handed down by
+    encode_module (the longest non-block key of the siblings), so that sibling '=' signs line up."""
+    for cls in encoder_classes(repo):
+        fn = repo.classes[cls].methods.get("encode_assignment")
+        if fn is None:
+            continue
+        params = [a.arg for a in fn.args.args]
+        ok_param = "key_len" in params
+        lj = [n for n in ast.walk(fn) if isinstance(n, ast.Call) and isinstance(n.func, ast.Attribute) and n.func.attr == "ljust"]
+        ok = ok_param and bool(lj) and all(len(n.args) == 1 and norm(n.args[0]) == "key_len" for n in lj)
+        # the separator
+        seps = [c.value for n in ast.walk(fn) for c in ast.walk(n) if isinstance(c, ast.Constant) and isinstance(c.value, str) and "=" in c.value]
+        ok_sep = any(x in ("{} = ", " = ") for x in seps)
+        # default: when no width is given the key's own length
+        dflt = any(isinstance(n, ast.If) and norm(n.test) == "key_len is None" and any(norm(b) == "key_len = len(key)" for b in n.body)
+                   for n in ast.walk(fn))
+        res.oblige("ALIGN", f"{cls}.encode_assignment pads the key with ljust(key_len) and writes ' = '", ok=ok and ok_sep and dflt)
+        if not (ok and ok_sep and dflt):
+            res.add(Finding("ALIGN", f"{cls}.encode_assignment", "key.ljust(key_len) + ' = '",
+                            f"{cls}.encode_assignment no longer pads the parameter name to the width handed down by "
+                            "encode_module (ljust(key_len)) before ' = ': sibling assignments lose their aligned '='",
+                            where=f"pvl/encoder.py:{fn.lineno}"))
